@@ -117,6 +117,7 @@ package fsm
 //@   ensures[burn] result == nil ==> supTotal(s) == old(supTotal(s)) - amount && old(supTotal(s)) >= amount
 //@   ensures[failsafe] result != nil ==> supTotal(s) == old(supTotal(s))
 //@   ensures[frame] acctBal() == old(acctBal()) && poolBal() == old(poolBal()) && allTokens(s) == old(allTokens(s))
+//@   ensures[othertallies] supStaked(s) == old(supStaked(s)) && supDelegated(s) == old(supDelegated(s))
 // minting creates exactly `amount` in the total and in one balance
 //@ func (*StateMachine).MintToPool
 //@   ensures[mint] result == nil ==> supTotal(s) == old(supTotal(s)) + amount && poolBal() == old(store(poolBal(), id, poolBal(id) + amount)) && acctBal() == old(acctBal())
@@ -142,6 +143,7 @@ package fsm
 //@ func (*StateMachine).UpdateValidatorStake
 //@   modifies ghost(stakeOf), ghost(stakeSum), ghost(supStaked), ghost(supDelegated), ghost(supTotal), ghost(kvHas), ghost(valOutput), ghost(cStaked), ghost(cDelegated), Validator.StakedAmount, Validator.Committees, Supply.Staked, Supply.DelegatedOnly
 //@   ensures[total] supTotal(s) == old(supTotal(s))
+//@   ensures[staked] isnil(err) ==> supStaked(s) == old(supStaked(s)) + amountToAdd
 //@   assumed[stake] isnil(err) ==> stakeSum(s) == old(stakeSum(s)) + amountToAdd && stakeOf() == old(store(stakeOf(), bytes(val.Address), stakeOf(bytes(val.Address)) + amountToAdd))
 //@   assumed[failsafe] !isnil(err) ==> stakeSum(s) == old(stakeSum(s)) && stakeOf() == old(stakeOf())
 //@   assumed[markers] forall h int, a BSeq :: kvHas(unstakeKey(h, a)) == old(kvHas(unstakeKey(h, a))) && kvHas(pausedKey(h, a)) == old(kvHas(pausedKey(h, a)))
@@ -155,6 +157,7 @@ package fsm
 //@   ensures[accounted] err == nil ==> allTokens(s) == old(allTokens(s)) + distributed
 //@   ensures[failsafe] err != nil ==> allTokens(s) == old(allTokens(s))
 //@   ensures[frame] supTotal(s) == old(supTotal(s)) && poolBal() == old(poolBal()) && poolSum(s) == old(poolSum(s))
+//@   ensures[stakedtally] err == nil ==> supStaked(s) - stakeSum(s) == old(supStaked(s) - stakeSum(s))
 
 // ---- C12: shrinking MaxCommittees re-files every affected validator under its NEW committees ------------------------
 // The tallies are debited with the OLD record: what UpdateCommittees / UpdateDelegations receive as oldValidator is the
@@ -853,6 +856,9 @@ package fsm
 //@   modifies lib.EventsTracker.Events, elems(*lib.Event)
 //@ func (*StateMachine).DistributeCommitteeRewards
 //@   loop 1 invariant[conserve] (drift(s) - old(drift(s))) % (MaxUint64 + 1) == 0
+//@   loop 1 invariant[stakedtally] supStaked(s) - stakeSum(s) == old(supStaked(s) - stakeSum(s))
+//@   loop 2 invariant[stakedtally] supStaked(s) - stakeSum(s) == old(supStaked(s) - stakeSum(s))
+//@   ensures[stakedtally] result == nil ==> supStaked(s) - stakeSum(s) == old(supStaked(s) - stakeSum(s))
 //@   loop 2 invariant[paid] allTokens(s) == atentry(allTokens(s)) + totalDistributed && supTotal(s) == atentry(supTotal(s)) && poolBal() == atentry(poolBal()) && poolSum(s) == atentry(poolSum(s))
 //@   ensures[conserve] result == nil ==> (drift(s) - old(drift(s))) % (MaxUint64 + 1) == 0
 // finishing an unstake: the stake goes to the validator's output address and leaves the stake sum; nothing is
@@ -917,3 +923,9 @@ package fsm
 // total - not just its first deposit - so nothing stays behind without a pending deposit.
 //@ func (*StateMachine).handleCappedBatchDeposit
 //@   loop 3 iterensures[fullrefund] local && athead(len(p.Points)) >= lib.MaxLiquidityProviders && athead(lowest) != nil && lowest == athead(lowest) && share <= athead(lowest.Points) ==> poolBal(wrap64(chainId + HoldingPoolAddend)) == athead(poolBal(wrap64(chainId + HoldingPoolAddend))) - newcomer.amount
+
+// ---- C06 / C04: cleaning up a finished vesting schedule touches the schedule only --------------------------------------
+// The clean-up runs on every account write. It may zero the four vesting fields of a fully vested account; the nonce
+// (the replay floor of Ethereum-wrapped transactions), the balance and the address are never changed by it.
+//@ func (*StateMachine).clearAccountVestingIfFullyVested
+//@   ensures[onlyschedule] account != nil ==> account.Nonce == old(account.Nonce) && account.Amount == old(account.Amount) && account.Address == old(account.Address)
